@@ -205,6 +205,17 @@ where
                                     );
                                     return Poll::Ready(Err(NegotiationError::Failed));
                                 }
+                                // Application data of an optimistic dialer may just as well
+                                // look like an invalid or over-long length prefix.
+                                if let ProtocolError::IoError(e) = &err
+                                    && e.kind() == std::io::ErrorKind::InvalidData
+                                {
+                                    tracing::trace!(
+                                        "Listener: Negotiation failed with invalid \
+                                            length prefix after protocol rejection."
+                                    );
+                                    return Poll::Ready(Err(NegotiationError::Failed));
+                                }
                             }
 
                             return Poll::Ready(Err(From::from(err)));
